@@ -114,6 +114,83 @@ func httpObjResult(d *dg.Design) []mref {
 	})
 }
 
+func multiRef(d *dg.Design, r *vh.RNG, what string) *Mutation {
+	if utOf(d, "MRes") != nil {
+		return nil
+	}
+	x, ok := pickM(r, methods(d, func(_ *dg.Service, m *dg.Method) bool {
+		return m.HTTP != nil && m.Payload != nil && m.Payload.T.Kind == "object" && len(m.Payload.T.Attrs) > 0
+	}))
+	if !ok {
+		return nil
+	}
+	mres := &dg.UserType{Name: "MRes", Result: true, Base: dg.Obj(dg.Req("a", dg.Prim("String")), dg.F("b", dg.Prim("Int")))}
+	mres.Views = []dg.View{{Name: "default", Attrs: []dg.ViewField{{Name: "a"}, {Name: "b"}}}, {Name: "tiny", Attrs: []dg.ViewField{{Name: "a"}}}}
+	target := "MRes"
+	n := 3 + r.Intn(2)
+	pos := []int{0, n / 2, n - 1}[r.Intn(3)]
+	posName := []string{"first", "middle", "last"}[map[bool]int{true: 0, false: 1}[pos == 0]]
+	if pos == n-1 {
+		posName = "last"
+	}
+	var fields []*dg.Field
+	shapes := ""
+	for i := 0; i < n; i++ {
+		leaf := dg.A(dg.Ref(target))
+		if i == pos {
+			switch what {
+			case "view":
+				leaf.View = "nope"
+			case "valid":
+				leaf.View = "tiny"
+			}
+		}
+		f := &dg.Field{Name: fmt.Sprintf("ref%d", i)}
+		if what == "range" {
+			// user-typed attributes take no validation of their own: the contradiction sits on
+			// an array-of-MRes attribute (min length > max length)
+			f.A = dg.A(dg.ArrayOf(leaf))
+			if i == pos {
+				f.A.V = &dg.Validation{MinLen: dg.Ip(5), MaxLen: dg.Ip(2)}
+			}
+			shapes += "a"
+			fields = append(fields, f)
+			continue
+		}
+		switch r.Intn(4) {
+		case 0: // nested in an inline object (only inside a user type: designgen keeps inline objects at the top)
+			f.A = leaf
+			shapes += "p"
+		case 1:
+			f.A = dg.A(dg.ArrayOf(leaf))
+			shapes += "a"
+		default:
+			f.A = leaf
+			shapes += "p"
+		}
+		fields = append(fields, f)
+	}
+	parent := &dg.UserType{Name: "MParent", Base: dg.Obj(fields...)}
+	d.Types = append(d.Types, mres, parent)
+	whereUsed := "payload"
+	if r.Bool() && what != "range" {
+		res := dg.A(dg.Ref("MParent"))
+		x.m.Result, x.m.ResultView = &res, ""
+		x.m.HTTP.Responses = nil
+		whereUsed = "result"
+	} else {
+		x.m.Payload.T.Attrs = append(x.m.Payload.T.Attrs, dg.F("mp", dg.Ref("MParent")))
+	}
+	mu := &Mutation{Kind: "multi_ref_" + what, Where: where(x) + " " + whereUsed, Name: fmt.Sprintf("%s of %d (%s)", posName, n, shapes), Covered: true, Expect: "reject"}
+	if what == "valid" {
+		mu.Expect = "accept"
+	}
+	if what == "range" {
+		mu.Expect = "any" // a contradiction, not a reference: the model predicts the rejection
+	}
+	return mu
+}
+
 // methods with an inline object payload carrying credential attributes
 func securedInline(d *dg.Design) []mref {
 	return methods(d, func(_ *dg.Service, m *dg.Method) bool {
@@ -464,6 +541,14 @@ var mutators = map[string]mutator{
 		t := cands[r.Intn(len(cands))]
 		return &Mutation{Kind: "required_missing", Where: t, Name: ghost, HookType: t, Covered: true, Expect: "reject"}
 	},
+	// ---- several references to one type: the dangling one is the first, a middle or the last ----
+	// a parent type with sibling attributes (plain, nested in an inline object, array
+	// element) all of the same result type / alias type, used as a method result or inside
+	// a payload; one of them carries View("nope") (resp. minimum > maximum). The valid
+	// counterpart uses a view the type defines.
+	"multi_ref_view": func(d *dg.Design, r *vh.RNG) *Mutation { return multiRef(d, r, "view") },
+	"multi_ref_range": func(d *dg.Design, r *vh.RNG) *Mutation { return multiRef(d, r, "range") },
+	"multi_ref_valid": func(d *dg.Design, r *vh.RNG) *Mutation { return multiRef(d, r, "valid") },
 	// ---- security: every scheme of an effective requirement needs its credential attribute(s) ----
 	"cred_missing": func(d *dg.Design, r *vh.RNG) *Mutation {
 		x, ok := pickM(r, securedInline(d))
